@@ -14,7 +14,7 @@ SPEC = {
         "percentage resolution, block layout of cell contents and the preferred widths (tableAndColumnsPreferredWidths: min-/max-content widths, intrinsic percentages, constrainedness, total spacing) are not modelled: they are inputs of the auto layout model read from /repo",
     ],
     "not_modelled": ["tableAndColumnsPreferredWidths and the colspan calls of distributeExcessWidth inside it (contract predicate only; autoTableLayout and its top-level distributeExcessWidth ARE modelled)",
-                     "collapsed borders conflict resolution", "RTL tables", "page breaks inside tables: which rows go to which page, repeated header / footer groups, the vertical geometry of a fragment (the horizontal geometry of every fragment IS compared)", "baseline alignment of cells (vertical-align: baseline)",
+                     "collapsed borders conflict resolution", "RTL tables split across pages (paged stream is ltr only; one-page rtl tables ARE modelled: column positions from the right edge, cell on its last column)", "page breaks inside tables: which rows go to which page, repeated header / footer groups, the vertical geometry of a fragment (the horizontal geometry of every fragment IS compared)", "baseline alignment of cells (vertical-align: baseline)",
                      "column / column group boxes' own geometry"],
     "codes": {"1": "column positions / cell x / width / border-box width / kept cells differ from the float32 model",
               "3": "column widths violate the contract: negative width, columns + spacing != used table width, or used width < specified width",
@@ -34,7 +34,8 @@ SPEC = {
               "20": "auto layout: a laid-out cell has a negative used content width (its columns are narrower than its own padding + borders)",
               "21": "auto layout: a cell's used content width is smaller than the min-content width of its content (the widest word it holds, from the generator's specification of the document)",
               "22": "a width / position / size of the laid-out table, of the preferred widths or of what autoTableLayout / fixedTableLayout returned is NaN or infinite (not representable as Q: the table is reported, never skipped)",
-              "23": "fixed layout: a laid-out cell has a negative used content width"},
+              "23": "fixed layout: a laid-out cell has a negative used content width",
+              "24": "direction: rtl table: the column positions (running from the right edge of the content box) or a cell's PositionX (the position of the LAST column it spans) / width / border-box width differ from the float32 model: the cell does not cover exactly its grid slots"},
     "theorems_for_kind": {
         "fixed": "C13_fixed_layout_fills", "corpus-fixed": "C13_fixed_layout_fills",
         "fixed-grid": "C13_table_grid / C13_slots / C13_group_without_rowspan_packed", "layout-grid": "C13_table_grid / C13_slots / C13_group_without_rowspan_packed",
@@ -44,6 +45,7 @@ SPEC = {
         "paged-grid": "C13_table_grid / C13_slots", "corpus-paged-grid": "C13_table_grid / C13_slots",
         "corpus-paged-horiz": "C13_fragments_positions / C13_fragment_column_positions / C13_cell_horizontal",
         "layout-horiz": "C13_column_positions / C13_cell_horizontal / C13_columns_adjacent / C13_columns_disjoint",
+        "layout-horiz-rtl": "C13_column_positions_rtl / C13_cell_horizontal_rtl", "corpus-horiz-rtl": "C13_column_positions_rtl / C13_cell_horizontal_rtl",
         "layout-vert": "C13_rowspan_heights_spec", "layout-widths": "C13_auto_layout_contract_partial (hypotheses of the grid theorems)",
         "layout-cells": "C13_cell_content_fits (a cell on columns sized for its outer min-content width holds its content; no negative used width)",
         "corpus-cells": "C13_cell_content_fits",
@@ -62,7 +64,7 @@ SPEC = {
             "percentage, nothing, crossed with 'all cells empty'; 2 in 3 of these tables have only constrained columns, so that the third, fourth and fifth group of distributeExcessWidth and both "
             "outcomes of an undistributed excess are reached); 2 in 15 documents are paged: 5-14 rows per tbody (+ thead / tfoot) on pages 120-300px high whose content boxes differ "
             "(@page :first / :left / :right margins, another size for the first page; 1 in 6 identical pages), laid out completely, then ONE case with the horizontal geometry of the table "
-            "fragment of EVERY page (ColumnPositions, cells) against the model run on that fragment's own content box and column widths; corpus/C13/*.html first; distinct by Coq term",
+            "fragment of EVERY page (ColumnPositions, cells) against the model run on that fragment's own content box and column widths; 3 in 10 of the laid-out (one page) tables of every stream carry direction: rtl (drawn after the table, so colspans are as frequent as in ltr tables) and give a CHorizRtl case; corpus/C13/*.html first; distinct by Coq term",
 }
 MANIFEST = {
     "text": "Coq theorems over a Gallina port of the table geometry of html/layout/tables.go (fixedTableLayout; column positions; cell x/width with "
